@@ -747,6 +747,7 @@ func c10Translations(c *vk.Ctx) {
 func runC10(c *vk.Ctx) {
 	c10IOFault(c)
 	c10Translations(c)
+	c10LargeValues(c)
 	n := c.N(3000, 200000)
 	for i := 0; i < n; i++ {
 		if !c.Mine(i) {
@@ -846,5 +847,60 @@ func c10IOFault(c *vk.Ctx) {
 				}
 			}
 		}
+	}
+}
+
+// c10LargeValues: values far larger than anything the sequences write (1 MiB, 16 MiB, 16 MiB + 1, 17 MiB - a session
+// record holding one big loaded value is that size). What was written is what is read, to the byte.
+func c10LargeValues(c *vk.Ctx) {
+	ctx := context.Background()
+	for bi, backend := range []string{"mem", "fs", "fsbin", "pg"} {
+		key := "large/" + backend
+		if !c.Mine(bi+11) || !c.Want(key) {
+			continue
+		}
+		c.Begin(key)
+		b, err := app.NewBackend(backend)
+		if err != nil {
+			c.Inconclusive(err.Error())
+			continue
+		}
+		for _, size := range []int{1 << 20, 16 << 20, 16<<20 + 1, 17 << 20} {
+			s, err := b.Handle()
+			if err != nil {
+				c.Inconclusive(err.Error())
+				break
+			}
+			v := make([]byte, size)
+			for i := range v {
+				v[i] = byte(i*7 + i>>11)
+			}
+			s.SetPrefix(db.DATATYPE_USERDATA)
+			s.SetSession("big")
+			k := []byte(fmt.Sprintf("v%d", size))
+			var perr, gerr error
+			var got []byte
+			pv, stack := vk.Guard(func() {
+				if perr = s.Put(ctx, k, v); perr == nil {
+					got, gerr = s.Get(ctx, k)
+				}
+			})
+			c.EvalN(1, 1)
+			c.Count("large_values_written_and_read", 1)
+			c.Max("max_value_bytes", int64(size))
+			csd := map[string]interface{}{"backend": backend, "value_bytes": size}
+			switch {
+			case pv != nil:
+				c.Violate(backend+":large:"+vk.PanicSig(pv, stack), fmt.Sprintf("%s: Put/Get of a value of %d bytes panics: %v", backend, size, pv), key, csd)
+			case perr != nil:
+				c.Count("large_values_refused_by_put(not this property)", 1)
+			case gerr != nil || !bytes.Equal(got, v):
+				c.Violate(backend+":get:wrong-value:large", fmt.Sprintf("%s: a value of %d bytes was written without error; Get returns %d bytes (err %v)", backend, size, len(got), gerr), key, csd)
+			}
+			if backend != "mem" {
+				s.Close(ctx)
+			}
+		}
+		b.Cleanup()
 	}
 }
